@@ -123,8 +123,8 @@ fn rand_cmd(r: &mut Rng, nkeys: usize, copies: usize) -> Cmd {
     }
 }
 
-fn run_sequence(out: &mut Out, class: &str, keys: &[K], cmds: &[Cmd]) {
-    if !out.wants_next() { out.skip(); return; }
+/// (input, observation, nontrivial) of one command sequence
+fn run_sequence(keys: &[K], cmds: &[Cmd]) -> (Value, Value, bool) {
     let dir = tempfile::tempdir().unwrap();
     let path = dir.path().join("root.json");
     let p = path.to_str().unwrap().to_string();
@@ -156,11 +156,11 @@ fn run_sequence(out: &mut Out, class: &str, keys: &[K], cmds: &[Cmd]) {
         let after = std::fs::read(&path).ok();
         // nothing but root.json and the copies may be left in the directory (no temp files)
         let stray = std::fs::read_dir(dir.path()).unwrap().flatten().filter(|e| { let n = e.file_name().to_string_lossy().to_string(); n != "root.json" && !n.starts_with("copy") }).count();
-        steps.push(json!({"ok": ok, "unchanged": before == after, "file": abstract_file(&path, keys), "stray_files": stray}));
+        steps.push(json!({"ok": ok, "unchanged": if ok { Value::Null } else { json!(before == after) }, "file": abstract_file(&path, keys), "stray_files": stray}));
     }
     let nontrivial = cmds.windows(2).any(|w| matches!(w[0], Cmd::Sign(..)) && !matches!(w[1], Cmd::Sign(..) | Cmd::SaveCopy(_)))
         || cmds.iter().any(|c| matches!(c, Cmd::SetThreshold(_, n) if *n > 1) || matches!(c, Cmd::Sign(_, Some(_), _)));
-    out.case_nt(class, json!({"cmds": cmds.iter().map(cmd_json).collect::<Vec<_>>()}), json!({ "steps": steps }), nontrivial);
+    (json!({"cmds": cmds.iter().map(cmd_json).collect::<Vec<_>>()}), json!({ "steps": steps }), nontrivial)
 }
 
 fn main() {
@@ -177,13 +177,14 @@ fn main() {
     let mut out = Out::new(&args.out);
     out.only = only;
     // corpus: the repaired defect (cross-sign, then a plain sign below the own threshold)
-    run_sequence(&mut out, "corpus-cross-then-plain", &keys, &[
+    let mut jobs: Vec<(&'static str, Vec<Cmd>)> = Vec::new();
+    jobs.push(("corpus-cross-then-plain", vec![
         Cmd::Init(None), Cmd::AddKey(vec![0], vec![0, 1, 2, 3]), Cmd::SetThreshold(0, 1), Cmd::SetThreshold(1, 1), Cmd::SetThreshold(2, 1), Cmd::SetThreshold(3, 1),
         Cmd::Sign(vec![0], None, false), Cmd::SaveCopy(0),
         Cmd::Init(Some(2)), Cmd::AddKey(vec![1, 2], vec![0, 1, 2, 3]), Cmd::SetThreshold(0, 2), Cmd::SetThreshold(1, 1), Cmd::SetThreshold(2, 1), Cmd::SetThreshold(3, 1),
         Cmd::Sign(vec![0], Some(0), true), Cmd::Sign(vec![1], None, false), Cmd::Sign(vec![1, 2], None, false),
-    ]);
-    let n = if thorough { 2500 } else { 150 };
+    ]));
+    let n = if thorough { 1500 } else { 150 };
     for i in 0..n {
         let mut r = Rng::new(args.seed, i);
         let nkeys = r.range(1, 3) as usize + if r.chance(1, 3) { 2 } else { 0 };
@@ -202,7 +203,28 @@ fn main() {
             if let Cmd::SaveCopy(_) = c { copies += 1; }
             cmds.push(c);
         }
-        run_sequence(&mut out, "random", &keys, &cmds);
+        jobs.push(("random", cmds));
+    }
+    // the sequences are independent (one temporary directory each): run them on all cores, emit in order
+    let wanted: Vec<bool> = (0..jobs.len() as u64).map(|i| only.map_or(true, |o| o == i + 1)).collect();
+    let results: Vec<std::sync::Mutex<Option<(Value, Value, bool)>>> = (0..jobs.len()).map(|_| std::sync::Mutex::new(None)).collect();
+    let next = std::sync::atomic::AtomicUsize::new(0);
+    let workers = std::thread::available_parallelism().map(|n| n.get()).unwrap_or(4).min(16);
+    std::thread::scope(|sc| {
+        for _ in 0..workers {
+            sc.spawn(|| loop {
+                let i = next.fetch_add(1, std::sync::atomic::Ordering::SeqCst);
+                if i >= jobs.len() { break; }
+                if !wanted[i] { continue; }
+                *results[i].lock().unwrap() = Some(run_sequence(&keys, &jobs[i].1));
+            });
+        }
+    });
+    for (i, (class, _)) in jobs.iter().enumerate() {
+        match results[i].lock().unwrap().take() {
+            Some((input, imp, nt)) => out.case_nt(class, input, imp, nt),
+            None => out.skip(),
+        }
     }
     out.finish();
 }
